@@ -1,5 +1,5 @@
 //! C13 — acknowledged writes survive any crash and recovery always succeeds (Immediate durability).
-//! One request = one history of engine operations on KG `default` (relations r, s) with crashes at chosen
+//! One request = one history of engine operations on shards `<kg>:<relation>` of KGs v1.0 / v1.1 (names with dots) with crashes at chosen
 //! `fs_point` labels (`persist.*` / `wal.*`), optionally tearing the data written by that step, and crashes inside
 //! the recovery itself.  Every image is a copy of the real data directory taken inside the `fs_point` callback;
 //! recovery is the real `StorageEngine::new`.
@@ -8,7 +8,7 @@ use crate::u::crashfs::{self, Cb};
 use inputlayer::{Config, StorageEngine, Tuple, Value};
 use std::path::{Path, PathBuf};
 
-const KG: &str = "default";
+const KGS: [&str; 3] = ["default", "v1.0", "v1.1"];
 const PREFIXES: [&str; 2] = ["persist.", "wal."];
 
 fn tuple(id: u64) -> Tuple {
@@ -28,19 +28,24 @@ fn open(dir: &Path, b: usize) -> Result<StorageEngine, String> {
     StorageEngine::new(c).map_err(|e| format!("{e}"))
 }
 
+/// every non-empty relation of every knowledge graph as `<kg>:<rel>=<ids>`, sorted by shard name
 fn visible(eng: &StorageEngine) -> String {
-    match eng.get_rules_and_data(KG) {
-        Ok((_, data)) => {
-            let mut rels: Vec<(String, Vec<u64>)> = data.iter().filter(|(_, v)| !v.is_empty())
-                .map(|(k, v)| { let mut ids: Vec<u64> = v.iter().map(|t| tuple_id(t).parse().unwrap_or(u64::MAX)).collect(); ids.sort(); (k.clone(), ids) }).collect();
-            rels.sort();
-            if rels.is_empty() { "-".into() } else {
-                rels.iter().map(|(k, v)| format!("{}={}", k, v.iter().map(|i| i.to_string()).collect::<Vec<_>>().join("."))).collect::<Vec<_>>().join(";")
-            }
+    let mut rels: Vec<(String, Vec<u64>)> = vec![];
+    for kg in eng.list_knowledge_graphs() {
+        match eng.get_rules_and_data(&kg) {
+            Ok((_, data)) => for (k, v) in data.iter().filter(|(_, v)| !v.is_empty()) {
+                let mut ids: Vec<u64> = v.iter().map(|t| tuple_id(t).parse().unwrap_or(u64::MAX)).collect(); ids.sort();
+                rels.push((format!("{kg}:{k}"), ids));
+            },
+            Err(e) => return format!("err:visible:{e}"),
         }
-        Err(e) => format!("err:visible:{e}"),
+    }
+    rels.sort();
+    if rels.is_empty() { "-".into() } else {
+        rels.iter().map(|(k, v)| format!("{}={}", k, v.iter().map(|i| i.to_string()).collect::<Vec<_>>().join("."))).collect::<Vec<_>>().join(";")
     }
 }
+fn split_shard(s: &str) -> Option<(&str, &str)> { s.split_once(':') }
 
 fn lbl_char(l: &str) -> char {
     match l {
@@ -65,17 +70,17 @@ fn new_cb(live: &Path, img: &Path, target: usize) -> Cb {
 }
 /// observed shard order of a multi-shard loop: relation names in the order their metadata was renamed into place
 fn order(cb: &Cb) -> String {
-    cb.order.iter().map(|n| n.strip_prefix("default_").unwrap_or(n).to_string()).collect::<Vec<_>>().join("+")
+    cb.order.join("+")
 }
 
 fn ids(s: &str) -> Option<Vec<Tuple>> { s.split(',').map(|x| x.parse::<u64>().ok().map(tuple)).collect() }
 
 fn run_op(eng: &mut StorageEngine, t: &[&str]) -> Option<bool> {
     Some(match t {
-        ["i", r, ts] => eng.insert_tuples_into(KG, r, ids(ts)?).is_ok(),
-        ["d", r, ts] => eng.delete_tuples_from(KG, r, ids(ts)?).is_ok(),
-        ["X", r] => eng.drop_relation_in(KG, r).is_ok(),
-        ["F"] => eng.save_knowledge_graph(KG).is_ok(),
+        ["i", r, ts] => { let (kg, rel) = split_shard(r)?; eng.insert_tuples_into(kg, rel, ids(ts)?).is_ok() }
+        ["d", r, ts] => { let (kg, rel) = split_shard(r)?; eng.delete_tuples_from(kg, rel, ids(ts)?).is_ok() }
+        ["X", r] => { let (kg, rel) = split_shard(r)?; eng.drop_relation_in(kg, rel).is_ok() }
+        ["F", kg] => eng.save_knowledge_graph(kg).is_ok(),
         ["C"] => eng.compact_all().is_ok(),
         _ => return None,
     })
@@ -150,7 +155,10 @@ pub fn exec(req: &str) -> String {
     let base = match crashfs::scratch() { Ok(d) => d, Err(_) => return "err:tempdir".into() };
     let live = base.path().join("data");
     let img = base.path().join("img");
-    let mut sys = match open(&live, b) { Ok(e) => Sys::Up(e), Err(e) => return format!("err:initial-open:{e}") };
+    let mut sys = match open(&live, b) {
+        Ok(e) => { for kg in &KGS[1..] { let _ = e.create_knowledge_graph(kg); } Sys::Up(e) }
+        Err(e) => return format!("err:initial-open:{e}"),
+    };
     let mut out: Vec<String> = vec![];
     macro_rules! finish { () => {{ crashfs::mark("harness:pre"); return out.join(" "); }} }
     // reopen after a crash, recording the recovery's steps; with `target > 0` take the image at that step
@@ -239,20 +247,27 @@ fn probe(req: &str) -> Vec<String> { exec(req).split(' ').map(|t| t.trim_matches
 
 pub fn gen(ctx: &mut Ctx) -> Vec<String> {
     let mut out = vec![];
-    let bases: Vec<(usize, Vec<&str>)> = vec![
-        (2, vec!["i r 0", "i r 1", "d r 0", "i r 2"]),
-        (2, vec!["i r 0,1,2", "d r 1", "i r 3"]),
-        (100, vec!["i r 0", "i r 1,5", "d r 0", "i s 2"]),
-        (100, vec!["i r 1", "i r 4"]),
-        (100, vec!["i r 5,2", "d r 5"]),
-        (2, vec!["i r 0", "i s 1", "i r 2", "i s 3", "d r 0", "d s 1"]),
-        (2, vec!["i r 0", "i r 1", "i r 2", "i r 3", "i r 6", "X r", "i r 4"]),
-        (2, vec!["i r 0", "i r 1", "C", "d r 0", "d r 1", "C", "i r 2"]),
-        (100, vec!["i r 0", "F", "i r 1", "F", "C", "d r 0", "F", "i r 2"]),
-        (3, vec!["i r 0", "i s 1", "i s 2", "X s", "i r 3", "i r 4"]),
+    // shard names <kg>:<relation> from an alphabet with dots (file-name function of the shard metadata!)
+    const A: &str = "v1.0:edge"; const B: &str = "v1.0:node"; const C: &str = "v1.1:edge"; const D: &str = "v1.1:a.b";
+    let mk = |ops: &[&str]| -> Vec<String> { ops.iter().map(|o| o.replace("$A", A).replace("$B", B).replace("$C", C).replace("$D", D)).collect() };
+    let bases: Vec<(usize, Vec<String>)> = vec![
+        (2, mk(&["i $A 0", "i $A 1", "d $A 0", "i $A 2"])),
+        (2, mk(&["i $A 0,1,2", "d $A 1", "i $A 3"])),
+        (100, mk(&["i $A 0", "i $A 1,5", "d $A 0", "i $C 2"])),
+        (100, mk(&["i $D 1", "i $D 4"])),
+        (100, mk(&["i $A 5,2", "d $A 5"])),
+        (2, mk(&["i $A 0", "i $B 1", "i $A 2", "i $B 3", "d $A 0", "d $B 1"])),
+        (2, mk(&["i $A 0", "i $C 1", "i $A 2", "i $C 3", "i $B 4", "i $B 5", "d $C 1"])),
+        (2, mk(&["i $A 0,1", "i $B 2,3", "i $C 4,5", "i $D 6,7", "d $B 2"])),
+        (2, mk(&["i $A 0", "i $A 1", "i $A 2", "i $A 3", "i $A 6", "X $A", "i $A 4"])),
+        (2, mk(&["i $D 0", "i $D 1", "C", "d $D 0", "d $D 1", "C", "i $D 2"])),
+        (100, mk(&["i $A 0", "F v1.0", "i $A 1", "F v1.0", "C", "d $A 0", "F v1.0", "i $A 2"])),
+        (100, mk(&["i $A 0", "i $B 1", "i $C 2", "F v1.0", "i $C 3", "F v1.1", "C"])),
+        (3, mk(&["i $A 0", "i $C 1", "i $C 2", "X $C", "i $A 3", "i $A 4"])),
     ];
     let thorough = ctx.thorough;
     for (b, ops) in &bases {
+        let ops: Vec<&str> = ops.iter().map(|x| x.as_str()).collect();
         let plain = format!("c13.run {} | {}", b, ops.join(" ; "));
         let st = probe(&plain);
         out.push(plain);
@@ -299,18 +314,18 @@ pub fn gen(ctx: &mut Ctx) -> Vec<String> {
         let b = *ctx.pick(&[1usize, 2, 2, 3, 100]);
         let len = 2 + ctx.below(7);
         let mut next_id = 0u64;
-        let mut live: Vec<(char, u64)> = vec![];
+        let mut live: Vec<(&str, u64)> = vec![];
         let mut h: Vec<String> = vec![];
         for _ in 0..len {
-            let rel = if ctx.chance(2, 3) { 'r' } else { 's' };
-            let mut pending_live: Vec<(char, u64)> = vec![];
-            let mut remove_live: Vec<(char, u64)> = vec![];
+            let rel: &str = *ctx.pick(&[A, A, B, C, D]);
+            let mut pending_live: Vec<(&str, u64)> = vec![];
+            let mut remove_live: Vec<(&str, u64)> = vec![];
             let mut op = match ctx.below(12) {
                 0..=5 => { let k = 1 + ctx.below(3); let idsv: Vec<u64> = (0..k).map(|_| { let i = next_id; next_id += 1; i }).collect();
                            for i in &idsv { pending_live.push((rel, *i)); } ctx.count("op_insert");
                            format!("i {} {}", rel, idsv.iter().map(|i| i.to_string()).collect::<Vec<_>>().join(",")) }
                 6..=8 if !live.is_empty() => { let (r, i) = live[ctx.below(live.len())]; remove_live.push((r, i)); ctx.count("op_delete"); format!("d {r} {i}") }
-                9 => { ctx.count("op_flush"); "F".into() }
+                9 => { ctx.count("op_flush"); format!("F {}", ctx.pick(&["v1.0", "v1.1"])) }
                 10 => { ctx.count("op_compact"); "C".into() }
                 11 if live.iter().any(|(r, _)| *r == rel) => { remove_live = live.iter().filter(|(r, _)| *r == rel).cloned().collect(); ctx.count("op_drop_relation"); format!("X {rel}") }
                 _ => { let i = next_id; next_id += 1; pending_live.push((rel, i)); ctx.count("op_insert"); format!("i {rel} {i}") }
